@@ -193,7 +193,9 @@ class World:
         for i, pc in enumerate(cfg.get("peers", [])):
             ip = pc.get("ip", f"10.1.0.{i + 1}")
             uri = f"aaa://{pc['name']}:{pc.get('port', 3868)}" + (";transport=sctp" if sctp else "")
-            p = self.node.add_peer(uri, pc.get("realm", REALM), ip_addresses=[ip] if pc.get("addr", True) else [],
+            # ips: a peer reachable under several addresses (tried in the order given)
+            p = self.node.add_peer(uri, pc.get("realm", REALM),
+                                   ip_addresses=(list(pc["ips"]) if pc.get("ips") else [ip]) if pc.get("addr", True) else [],
                                    is_persistent=pc.get("persistent", False), is_default=pc.get("default", False))
             for k in ("always_reconnect", "reconnect_wait"):
                 if k in pc:
